@@ -2,10 +2,10 @@
 import os
 from vlib import common as C, coapgen as G
 
-# clean (exit 0 + KNOWN-FINDING) at seeds 1..5 on 2026-09-26; build_view proved since (branch ws-P04).
+# clean (exit 0, no KNOWN-FINDING) at seeds 1..5 on the tree with the Hop-Limit fix (branch ws-P04).
 MANIFEST = {
-    "text": "Proved in Lean for all messages and all three framings: decode(encode m) = m for every well-formed message (udp, tcp with four length forms, ws), the 13/14 header scheme is a bijection, any insertion order yields ascending options with insertion order kept among equals (about the specification S); M's serialised bytes = Spec.encode and the decoder's view of a built PDU is the abstract message; and build_view: every script of API calls (add_token / add_option in ANY order, i.e. including the coap_insert_option path with its six next-option header rewrite cases / insert / update / remove / update_token / add_data, any capacity, refusals at any step) run by the transcription M of libcoap's builders never leaves the buffer and ends on the PDU representing the abstract message reached by the specification's steps with M's return codes. PARTIAL: 'every refused call is a no-op' is false on the current tree (open finding: a refused Proxy-Uri/Proxy-Scheme on a request leaves Hop-Limit behind; kernel-checked witness); proved instead: every refused call of every kind is a no-op outside that domain (refused_is_noop_partial), and inside it a refused call leaves nothing but Hop-Limit=16 (refused_changes_only_hop_limit). M is tied to the C code by differential runs: I vs M vs S on generated API call scripts, per-call buffer digests, bytes compared with Spec.encode.",
-    "note": 'Trusted: Lean kernel (+ propext, Classical.choice, Quot.sound), T1 extractor, harness/generators, the hand transcription M (checked against the compiled code on the cases run only; no model-branch coverage is reported). Three libcoap defects fixed on the way (f8194f9, 6eac10e, 0dbb6d3), one open. refused_is_noop remains in NOT_PROVED because it is false (open finding), not because a proof is missing.',
+    "text": "Proved in Lean for all messages and all three framings: decode(encode m) = m for every well-formed message (udp, tcp with four length forms, ws), the 13/14 header scheme is a bijection, any insertion order yields ascending options with insertion order kept among equals (about the specification S); M's serialised bytes = Spec.encode and the decoder's view of a built PDU is the abstract message; build_view: every script of API calls (add_token / add_option in ANY order, i.e. including the coap_insert_option path with its six next-option header rewrite cases / insert / update / remove / update_token / add_data, any capacity, refusals at any step) run by the transcription M of libcoap's builders never leaves the buffer and ends on the PDU representing the abstract message reached by the specification's steps with M's return codes; refused_is_noop: every refused call of every kind leaves the PDU (bytes, max_opt, payload offset, hence the view) exactly as it was. M is tied to the C code by differential runs: I vs M vs S on generated API call scripts, per-call buffer digests (a refused call changing the buffer is a violation on its own), bytes compared with Spec.encode.",
+    "note": 'Trusted: Lean kernel (+ propext, Classical.choice, Quot.sound), T1 extractor, harness/generators, the hand transcription M (checked against the compiled code on the cases run only; no model-branch coverage is reported). Four libcoap defects fixed on the way (token length cast, over-long option value, refused add_token leaving the token length, refused Proxy-Uri/Proxy-Scheme leaving its implicit Hop-Limit); none open. The theorems hold for PDUs representing an abstract message (everything reachable from coap_pdu_init or a successful parse through the API), option numbers ≤ 65535.',
     "design_ref": "design/C01.md, DESIGN.md §4 C01",
 }
 
@@ -16,12 +16,9 @@ REQUIRED_THEOREMS = ["ext_roundtrip", "opt_header_unique", "decode_encode", "enc
                      "refused_repetitions_are_illegal",
                      # M side
                      "M_encode_eq_S", "view_of_built", "build_view", "build_view_fresh", "build_view_partial",
-                     "accepted_step_is_spec", "refused_is_noop_partial", "refused_changes_only_hop_limit",
-                     "refused_proxy_leaves_hop_limit"]
-# NOT PROVED because FALSE on the current tree (open finding hop-limit-left-by-refused-proxy, see Props/C01.lean, design/C01.md):
-# refused_is_noop at full strength.  Proved instead: refused_is_noop_partial (every call kind, outside the D13 domain) and
-# refused_changes_only_hop_limit (inside it).
-NOT_PROVED = ["refused_is_noop"]
+                     "accepted_step_is_spec", "refused_when", "refused_is_noop", "refused_calls_are_skippable",
+                     "refused_proxy_leaves_nothing"]
+NOT_PROVED = []
 RULE = ("API call scripts (coap_pdu_init; add_token / add_option / insert_option / update_option / remove_option / "
         "update_token / add_data in any order) for udp/tcp/ws: token length classes 0, 1-8, 9-12, 13, 14-268, 269, "
         "270-65804, 65805; option multisets over 0..65535 with deltas and value lengths on both sides of 12/13, "
@@ -264,7 +261,8 @@ def refused_changes(line, fi):
 
 
 def s_alts(s):
-    """S line → [(needs_open_finding, msg, bytes)]"""
+    """S line → [(False, msg, bytes)] (the first component tagged results needing the semantics of the former open
+    finding hop-limit-left-by-refused-proxy; the driver no longer emits such results since the defect is fixed)"""
     out = []
     for a in s.split(" ", 1)[1].split(" || "):
         tag = a.startswith("leftover ")
@@ -364,46 +362,7 @@ def shrink(ctx, case):
         lines = [" ".join(w[:6] + [";".join(x)]) for x in cands]
         for cc, x in zip(diff_side(ctx, me, lines), cands):
             v = judge(ctx, cc)
-            if v and v[0] == "spec" and not known(ctx, cc):     # never shrink a violation into a known finding
+            if v and v[0] == "spec":
                 cc["why"] = v[1]; best = cc; ops = x; changed = True
                 break
     return best
-
-
-def known(ctx, c):
-    """open finding hop-limit-left-by-refused-proxy.  A case belongs to it iff
-      (a) every refused call that changed the PDU is a coap_add_option / coap_insert_option / coap_update_option for
-          Proxy-Uri (35) or Proxy-Scheme (39) on a request (code 1..31) and used_size grew by 0..4 bytes, and there is one;
-      (b) the message round-trips (what was built is what is re-parsed);
-      (c) when the abstract side has a verdict: the refusal patterns agree and the implementation's message and bytes are
-          EXACTLY an abstract result computed with "a refused Proxy call still inserts Hop-Limit = 16" (tagged `leftover`
-          by the driver) — not merely similar to one.
-    Any other refused call changing the PDU, any larger change, any end state that even the leftover semantics does not
-    explain, is not this finding and is reported."""
-    w = c["input"].split()
-    if w[0] != "build":
-        return None
-    code = int(w[4])
-    fi, s = fields(c["impl"]), c["spec"]
-    if not fi or not (1 <= code < 32):
-        return None
-    bad = refused_changes(c["input"], fi)
-    if not bad:
-        return None
-    for k, op, before, after in bad:
-        if not (op[0] in "OIU" and op[1:].split(":")[0] in ("35", "39")):
-            return None
-        grow = int(after.split(".")[0]) - int(before.split(".")[0])
-        if not (0 <= grow <= 4):
-            return None
-    proto = w[1]
-    if in_domain(c["input"]) and (fi.get("hdr") == "0" or fi["reparse"] != "ok " + d3(proto, fi["built"])):
-        return None
-    if s and s != "skip":
-        spat = s.split(" ")[0][4:]
-        spat = "" if spat == "-" else spat
-        if rc_pattern(fi.get("steps")) != spat:
-            return None
-        if not any(fi["reparse"] == "ok " + sm and fi["bytes"] == sb for tag, sm, sb in s_alts(s)):
-            return None
-    return "hop-limit-left-by-refused-proxy"
